@@ -126,6 +126,10 @@ type StackCase struct {
 	Unknown  bool     `json:"unknownLength,omitempty"`
 	MaxRetry int      `json:"maxRetry"`
 	Layer    string   `json:"layer"` // auth+retry, retry, auth
+	// Warm: an earlier request already cached a bearer token for the scope the
+	// registry challenges with (so a 401 is first answered with the cached token,
+	// and only then with a freshly fetched one: three sends)
+	Warm bool `json:"warm,omitempty"`
 }
 
 var alphabet = []string{"401basic", "401bearer", "408", "429", "500", "502", "503", "504", "timeout", "neterr", "200", "201", "404", "400"}
@@ -144,6 +148,16 @@ func genStack(t *rapid.T) StackCase {
 	c.Unknown = rapid.IntRange(0, 3).Draw(t, "unknown") == 0
 	c.MaxRetry = rapid.IntRange(0, 6).Draw(t, "maxRetry")
 	c.Layer = rapid.SampledFrom([]string{"auth+retry", "auth+retry", "retry", "auth"}).Draw(t, "layer")
+	if c.Layer != "retry" && rapid.Bool().Draw(t, "warm") {
+		c.Warm = true
+		if rapid.Bool().Draw(t, "staleToken") {
+			// the cached token has gone stale: 401 without token, 401 with the cached one
+			c.Script[0] = "401bearer"
+			if len(c.Script) > 2 {
+				c.Script[1] = "401bearer"
+			}
+		}
+	}
 	return c
 }
 
@@ -169,6 +183,7 @@ type server struct {
 	partial  []bool
 	attempts []attempt
 	onAnswer func(i int, sym string)
+	warm     bool // warm-up phase: challenge anonymous requests, accept the rest, record nothing
 }
 
 type sendKey struct{}
@@ -179,6 +194,16 @@ func (s *server) RoundTrip(req *http.Request) (*http.Response, error) {
 			Body: io.NopCloser(strings.NewReader(`{"token":"tok"}`)), ContentLength: 15, Request: req}, nil
 	}
 	s.mu.Lock()
+	if s.warm {
+		s.mu.Unlock()
+		h, st := http.Header{}, 200
+		if req.Header.Get("Authorization") == "" {
+			st = 401
+			h.Set("Www-Authenticate", `Bearer realm="https://srv.test/token",service="srv.test",scope="repository:a:pull"`)
+		}
+		return &http.Response{StatusCode: st, Status: fmt.Sprintf("%d %s", st, http.StatusText(st)), Proto: "HTTP/1.1", ProtoMajor: 1, ProtoMinor: 1,
+			Header: h, Body: io.NopCloser(strings.NewReader("{}")), ContentLength: 2, Request: req}, nil
+	}
 	i := len(s.attempts)
 	sym := s.script[len(s.script)-1]
 	part := false
@@ -281,6 +306,21 @@ func runStackInner(c StackCase) (res vt.Result, fail *vt.Fail) {
 	if c.Layer != "retry" {
 		ac := &auth.Client{Client: hc, Cache: auth.NewCache(), Credential: auth.StaticCredential("srv.test", auth.Credential{Username: "u", Password: "p"})}
 		do = ac.Do
+		if c.Warm {
+			srv.warm = true
+			wreq, _ := http.NewRequest(http.MethodGet, "https://srv.test/v2/a/tags/list", nil)
+			wresp, werr := ac.Do(wreq)
+			if werr != nil || wresp.StatusCode != 200 {
+				return res, vt.Failf("harness/warm-up", "warm-up request: %v %v", wresp, werr)
+			}
+			wresp.Body.Close()
+			srv.mu.Lock()
+			srv.warm = false
+			srv.mu.Unlock()
+			marker.mu.Lock()
+			marker.n = 0
+			marker.mu.Unlock()
+		}
 	}
 	payload := gen.BlobBytes(3, c.Size)
 	var body io.Reader
@@ -316,6 +356,9 @@ func runStackInner(c StackCase) (res vt.Result, fail *vt.Fail) {
 	srv.mu.Unlock()
 	res.NonTrivial = len(atts) >= 2 && hasBody && c.Size > 0
 	res.Classes = []string{"layer-" + c.Layer, "body-" + c.BodyKind}
+	if c.Warm {
+		res.Classes = append(res.Classes, "token-cached-by-an-earlier-request")
+	}
 	if len(atts) >= 2 {
 		res.Classes = append(res.Classes, "re-sent")
 	}
@@ -358,6 +401,9 @@ func runStackInner(c StackCase) (res vt.Result, fail *vt.Fail) {
 		if n > limit {
 			return res, vt.Failf("C17/too-many-attempts", "send %d was attempted %d times, MaxRetry=%d", s, n, c.MaxRetry)
 		}
+	}
+	if len(perSend) == 3 && hasBody && c.Size > 0 {
+		res.Classes = append(res.Classes, "three-sends-with-a-body")
 	}
 	if len(perSend) > 3 {
 		return res, vt.Failf("C17/too-many-sends", "%d sends for one Do", len(perSend))
